@@ -132,6 +132,7 @@ func runPtrace(ctx context.Context, argv []string, mod func(*ptrace.Runner)) run
 		Handler: allowHandler{},
 		Limit:   bigLimit,
 	}
+	r.ShowDetails = os.Getenv("VERIF_DEBUG") != ""
 	if mod != nil {
 		mod(r)
 	}
